@@ -390,7 +390,7 @@ pub fn owned(prop: &str, v: &Violation) -> bool {
         "C03" => {
             (strict && (ledger || v.class == BadValue || v.ownership))
                 || matches!(v.class, DoubleDrop | GarbageDrop)
-                || (v.class == RelaxedInvalid && (v.detail.contains("are alive") || v.detail.contains("is not a valid value")))
+                || (v.class == RelaxedInvalid && (v.detail.contains("are alive") || v.detail.contains("is not a valid value") || v.detail.contains("visible more often")))
         }
         "C04" => v.op == Op::TypeProbe,
         "C05" => {
